@@ -674,6 +674,212 @@ func c15Extract(out string) int {
 		}
 	}
 
+	// fact own_reads_locked: every element access / iteration / delete on the maps the debugger owns
+	// (the fields NewECALDebugger initialises with make), in ALL methods of ecalDebugger (evaluator
+	// side and command side), with the lock mode held there.
+	mapAccess := map[[4]string]bool{}
+	// fact visit_returns_nil: what the visit functions return
+	visitReturns := map[[2]string]bool{}
+	if typed {
+		owned := map[string]bool{}
+		for o, fd := range x.decls {
+			if c15FuncName(o) != "NewECALDebugger" {
+				continue
+			}
+			ast.Inspect(fd.Body, func(n ast.Node) bool {
+				if kv, ok := n.(*ast.KeyValueExpr); ok {
+					if call, ok := kv.Value.(*ast.CallExpr); ok {
+						if id, ok := call.Fun.(*ast.Ident); ok && id.Name == "make" {
+							if k, ok := kv.Key.(*ast.Ident); ok {
+								owned[k.Name] = true
+							}
+						}
+					}
+				}
+				return true
+			})
+		}
+		found["NewECALDebugger map fields"] = len(owned) > 0
+		ownedField := func(e ast.Expr) string {
+			for {
+				if p, ok := e.(*ast.ParenExpr); ok {
+					e = p.X
+				} else {
+					break
+				}
+			}
+			se, ok := e.(*ast.SelectorExpr)
+			if !ok {
+				return ""
+			}
+			if n, _ := x.structName(info.TypeOf(se.X)); n != "ecalDebugger" || !owned[se.Sel.Name] {
+				return ""
+			}
+			return se.Sel.Name
+		}
+		type pend struct {
+			who, field, kind string
+			fn               *types.Func
+		}
+		var pending []pend
+		siteModes := map[*types.Func]map[string]bool{}
+		for o, fd := range x.decls {
+			who := c15FuncName(o)
+			var ls c15LockState
+			writes := map[ast.Expr]bool{}
+			ast.Inspect(fd.Body, func(n ast.Node) bool {
+				switch s := n.(type) {
+				case *ast.DeferStmt:
+					if x.lockOp(s.Call) != "" {
+						return false
+					}
+				case *ast.AssignStmt:
+					for _, l := range s.Lhs {
+						if ix, ok := l.(*ast.IndexExpr); ok {
+							writes[ix] = true
+						}
+					}
+				case *ast.RangeStmt:
+					if f := ownedField(s.X); f != "" {
+						pending = append(pending, pend{who, f, "iterate", o})
+						mapAccess[[4]string{who, f, "iterate", ls.mode()}] = true
+					}
+				case *ast.IndexExpr:
+					if f := ownedField(s.X); f != "" {
+						kind := "read"
+						if writes[s] {
+							kind = "write"
+						}
+						mapAccess[[4]string{who, f, kind, ls.mode()}] = true
+					}
+				case *ast.CallExpr:
+					if op := x.lockOp(s); op != "" {
+						switch op {
+						case "Lock":
+							ls.w++
+						case "Unlock":
+							ls.w--
+						case "RLock":
+							ls.r++
+						case "RUnlock":
+							ls.r--
+						}
+						return true
+					}
+					if id, ok := s.Fun.(*ast.Ident); ok && id.Name == "delete" && len(s.Args) > 0 {
+						if f := ownedField(s.Args[0]); f != "" {
+							mapAccess[[4]string{who, f, "write", ls.mode()}] = true
+						}
+					}
+					var callee *types.Func
+					switch f := s.Fun.(type) {
+					case *ast.Ident:
+						callee, _ = info.ObjectOf(f).(*types.Func)
+					case *ast.SelectorExpr:
+						if sel := info.Selections[f]; sel != nil {
+							callee, _ = sel.Obj().(*types.Func)
+						}
+					}
+					if callee != nil && x.decls[callee] != nil {
+						if siteModes[callee] == nil {
+							siteModes[callee] = map[string]bool{}
+						}
+						siteModes[callee][ls.mode()] = true
+					}
+				}
+				return true
+			})
+		}
+		_ = pending
+		// an unexported helper without own locking inherits the weakest mode of its call sites
+		resolved := map[[4]string]bool{}
+		for a := range mapAccess {
+			if a[3] != "none" {
+				resolved[a] = true
+				continue
+			}
+			mode := "none"
+			for o := range x.decls {
+				if c15FuncName(o) == a[0] && !o.Exported() {
+					if sm := siteModes[o]; len(sm) > 0 && !sm["none"] {
+						mode = "w"
+						if sm["r"] {
+							mode = "r"
+						}
+					}
+				}
+			}
+			resolved[[4]string{a[0], a[1], a[2], mode}] = true
+		}
+		mapAccess = resolved
+
+		visitNames := map[string]bool{"ecalDebugger.VisitState": true, "ecalDebugger.VisitStepInState": true, "ecalDebugger.VisitStepOutState": true}
+		for o, fd := range x.decls {
+			who := c15FuncName(o)
+			if !visitNames[who] {
+				continue
+			}
+			var classify func(e ast.Expr, depth int) string
+			classify = func(e ast.Expr, depth int) string {
+				if depth > 3 {
+					return "?deep"
+				}
+				switch e := e.(type) {
+				case *ast.ParenExpr:
+					return classify(e.X, depth+1)
+				case *ast.Ident:
+					if e.Name == "nil" {
+						return "nil"
+					}
+					obj := info.ObjectOf(e)
+					res := "nil" // zero value of a declared local
+					seen := false
+					ast.Inspect(fd.Body, func(n ast.Node) bool {
+						if as, ok := n.(*ast.AssignStmt); ok && len(as.Lhs) == len(as.Rhs) {
+							for i, l := range as.Lhs {
+								if id, ok := l.(*ast.Ident); ok && info.ObjectOf(id) == obj {
+									seen = true
+									if c := classify(as.Rhs[i], depth+1); c != "nil" && res != c {
+										if res == "nil" {
+											res = c
+										} else {
+											res = "?mixed"
+										}
+									}
+								}
+							}
+						}
+						return true
+					})
+					_ = seen
+					if res == "visit-call" || res == "nil" {
+						return "local(nil|visit-call)"
+					}
+					return res
+				case *ast.CallExpr:
+					if se, ok := e.Fun.(*ast.SelectorExpr); ok {
+						if sel := info.Selections[se]; sel != nil {
+							if f, ok := sel.Obj().(*types.Func); ok && visitNames[c15FuncName(f)] {
+								return "visit-call"
+							}
+						}
+					}
+					return "other-call"
+				}
+				return "other-expression"
+			}
+			ast.Inspect(fd.Body, func(n ast.Node) bool {
+				if _, ok := n.(*ast.FuncLit); ok {
+					return false
+				}
+				if r, ok := n.(*ast.ReturnStmt); ok && len(r.Results) == 1 {
+					visitReturns[[2]string{who, classify(r.Results[0], 0)}] = true
+				}
+				return true
+			})
+		}
+	}
+
 	var sb strings.Builder
 	sb.WriteString("/-! GENERATED by `harness C15 -tool extract` from the TYPE-CHECKED Go source under test — do not edit.\n")
 	sb.WriteString("`observerAccesses`: (function, access) for every function of package interpreter reachable from the\n")
@@ -704,7 +910,7 @@ func c15Extract(out string) int {
 	fmt.Fprintf(&sb, "def typeChecked : Bool := %v\n\n", typed)
 	sb.WriteString("def found : List (String × Bool) := [")
 	var fparts []string
-	for _, e := range append(entryNames, "debugger-attached region") {
+	for _, e := range append(entryNames, "debugger-attached region", "NewECALDebugger map fields") {
 		fparts = append(fparts, fmt.Sprintf("(%q, %v)", e, found[e]))
 	}
 	sb.WriteString(strings.Join(fparts, ", ") + "]\n\n")
@@ -736,6 +942,20 @@ func c15Extract(out string) int {
 		dfp = append(dfp, fmt.Sprintf("%q", f))
 	}
 	sb.WriteString("def debuggerFields : List String := [" + strings.Join(dfp, ", ") + "]\n\n")
+	sb.WriteString("/-- fact own_reads_locked: (method, map field, read|write|iterate, lock mode w|r|none) for every element\n")
+	sb.WriteString("access, delete and iteration on the maps NewECALDebugger creates, in every method of ecalDebugger -/\n")
+	var mas [][4]string
+	for k := range mapAccess {
+		mas = append(mas, k)
+	}
+	sort.Slice(mas, func(i, j int) bool { return strings.Join(mas[i][:], "\x00") < strings.Join(mas[j][:], "\x00") })
+	var maparts []string
+	for _, k := range mas {
+		maparts = append(maparts, fmt.Sprintf("(%q, %q, %q, %q)", k[0], k[1], k[2], k[3]))
+	}
+	sb.WriteString("def mapAccesses : List (String × String × String × String) :=\n  [" + strings.Join(maparts, ",\n  ") + "]\n\n")
+	sb.WriteString("/-- fact visit_returns_nil: (visit function, what a return statement returns) -/\n")
+	sb.WriteString("def visitReturns : List (String × String) :=\n  " + pairs(visitReturns) + "\n\n")
 	sb.WriteString("def unresolved : List (String × String) :=\n  " + pairs(x.unresolved) + "\n\n")
 	sb.WriteString("end Ecal.Gen.C15\n")
 	if len(terrs) > 0 {
